@@ -60,6 +60,11 @@ thread_local! {
 
 pub(crate) fn evict_round(sample: &[PolicyPair], min_key: u64, min_hits: i64, inc_hits: i64, room: i64) {
     EVICT_LOG.with(|l| {
+        // an eviction loop that never ends has no other scheduling point: make it observable
+        // (the harness drains the log after every execution; real runs evict a handful of entries)
+        if l.borrow().len() >= 100_000 {
+            panic!("eviction loop did not terminate after 100000 sampling rounds");
+        }
         l.borrow_mut().push(EvictRound {
             sample: sample.iter().map(|p| (p.key, p.cost)).collect(),
             min_key,
